@@ -821,7 +821,10 @@ def run(rep: vlib.Reporter, tier: str, seed: int) -> None:
                     "multi-column features on a root and on a derived group, index columns, 0-2 links, 0-2 global filters, 3 compute "
                     "frameworks); quick = all ordered requests of <= 2 names + 36 sampled of 3-4 names, thorough = all 1099 ordered "
                     "requests of <= 4 names, each x 3 orderings x hash seeds. non-trivial = unit call with >= 2 names and >= 2 selected "
-                    "columns / e2e request with >= 2 names (distinct by configuration, name set, ordering)")
+                    "columns / e2e request with >= 2 names (distinct by configuration, name set, ordering). modes: per configuration 8 "
+                    "(quick) / 96 (thorough) ordered requests of 1-4 names x 3 orderings, each run in SYNC, THREADING and MULTIPROCESSING "
+                    "(one hash seed per configuration, rotating); non-trivial = request with >= 2 names (distinct by configuration, "
+                    "ordered request, ordering, mode)")
     for c in (ucases[:2] + [{k: v for k, v in r.items() if k in ("cfg", "hashseed", "req", "ordering", "tables", "trace")} for r in runs[100:400:100]]):
         rep.sample(c)
     rep.add("total_wall_s", round(time.time() - t_start, 1))
